@@ -474,14 +474,15 @@ Proof. intros [H _ _ _ _ _ _]. unfold nparts, len. rewrite H. reflexivity. Qed.
 Lemma vt_no_panic c u : honest_ctx c -> upd_decodable (ps (cx_mach c)) u ->
   valid_transition (cx_mach c) (u_st u) (u_actor u) <> PANIC.
 Proof.
-  intros Hh [_ Hd]. destruct (h_cur c Hh) as (ct & Hc & _). unfold valid_transition. rewrite Hc.
+  intros Hh [_ Hd]. destruct (h_cur c Hh) as (ct & Hc & Vc & Nc). unfold valid_transition. rewrite Hc.
   destruct (nparts (cx_mach c) <=? u_actor u); [discriminate|].
   destruct (generic_valid (cx_mach c) (tx_st ct) (u_st u)) eqn:G; [|discriminate].
   unfold app_valid_transition. pose proof (h_app c Hh) as Hk.
   destruct (mp_kind (ps (cx_mach c))) as [[|]|] eqn:K; [|elim Hk; reflexivity|discriminate].
-  unfold generic_valid in G. rewrite !andb_true_iff in G. destruct G as [[[[[[[_ G2] _] _] _] _] _] _].
+  unfold generic_valid in G. rewrite !andb_true_iff in G. destruct G as [[[[[[[_ G2] _] _] G5] G6] G7] _].
   apply app_should_equal_eq in G2. rewrite (Hd eq_refl (eq_sym G2)). cbn [is_nodata negb].
-  destruct (pay_rows _ _ _); discriminate.
+  apply N.eqb_eq in G6. apply nlist_eqb_eq in G7.
+  apply pay_rows_valid_no_panic; [exact Vc|exact G5|rewrite Nc, G6; reflexivity|exact G7].
 Qed.
 
 Lemma check_no_panic c u : honest_ctx c -> upd_decodable (ps (cx_mach c)) u ->
